@@ -855,6 +855,7 @@ type session struct {
 	video  *track
 	events []event
 	evno   int64 // number of the event being delivered
+	noSR   bool  // replay without sender reports
 	wallMs float64
 
 	files   []string
@@ -863,8 +864,8 @@ type session struct {
 	summary map[string]any
 }
 
-func buildSession(run *vk.Run, p params) *session {
-	s := &session{p: p, run: run}
+func buildSession(run *vk.Run, p params, noSR bool) *session {
+	s := &session{p: p, run: run, noSR: noSR}
 	r := run.Rand(2, p.Session)
 	var from, to float64 = captureBase, captureBase + 2000
 	if p.Video != "" {
@@ -896,6 +897,16 @@ func buildSession(run *vk.Run, p params) *session {
 			t.firstPush[i] = -1
 		}
 	}
+	if noSR {
+		// the same session without its sender reports (attribution only)
+		kept := all[:0]
+		for _, e := range all {
+			if e.pkt >= 0 {
+				kept = append(kept, e)
+			}
+		}
+		all = kept
+	}
 	for i := range all {
 		all[i].ord = i
 	}
@@ -919,6 +930,9 @@ func (s *session) trackById(id int) *track {
 // drive plays the session against the real recorder.
 func (s *session) drive() error {
 	s.group = fmt.Sprintf("s%06d", s.p.Session)
+	if s.noSR {
+		s.group += "n"
+	}
 	s.dir = filepath.Join(diskwriter.Directory, s.group)
 	g, err := group.Add(s.group, &group.Description{})
 	if err != nil {
@@ -1380,130 +1394,6 @@ func (t *track) reference() []sample {
 	return out
 }
 
-// refInfo is what the pinned sample builder does, alone, with the packets the
-// recorder was observed to receive.
-type refRun struct {
-	t        *track
-	samples  []sample
-	matches  []match
-	sig      map[string]bool // defects of the builder's own output
-	released []bool          // frame came out of the builder exactly
-	writable []bool          // ... at or after the first keyframe that came out
-	stale    []bool          // keyframe released only after another keyframe's first packet arrived
-	goodKfAt int             // feed position at which the first non-stale keyframe was released (-1 none)
-}
-
-func (t *track) refInfo(required []bool) *refRun {
-	ri := &refRun{t: t, sig: map[string]bool{}, goodKfAt: -1}
-	ri.samples = t.reference()
-	var issues []issue
-	issues, ri.matches = t.checkSamples(ri.samples, required, false)
-	for _, is := range issues {
-		ri.sig[is.sig] = true
-	}
-	n := len(t.frames)
-	ri.released, ri.writable, ri.stale = make([]bool, n), make([]bool, n), make([]bool, n)
-	firstFeed := map[int]int{}
-	for fi, pi := range t.feed {
-		if _, ok := firstFeed[pi]; !ok {
-			firstFeed[pi] = fi
-		}
-	}
-	started := t.id == 0
-	for _, m := range ri.matches {
-		if m.frame < 0 {
-			continue
-		}
-		ri.released[m.frame] = true
-		if t.frames[m.frame].key {
-			started = true
-		}
-		if started {
-			ri.writable[m.frame] = true
-		}
-	}
-	if t.id == 1 {
-		// stale keyframe: between the arrival of its first packet and the
-		// release of a sample carrying its timestamp, the first packet of
-		// another keyframe reached the recorder
-		byTs := map[uint32]int{}
-		for i := range t.frames {
-			byTs[t.frames[i].ts] = i
-		}
-		// the first keyframe packet to arrive fixes the track's origin; what is
-		// older than that is dropped by design
-		originSet, originTs := false, uint32(0)
-		for _, pi := range t.feed {
-			if f := &t.frames[t.pkts[pi].frame]; f.key && pi == f.p0 {
-				originSet, originTs = true, f.ts
-				break
-			}
-		}
-		for _, smp := range ri.samples {
-			g, ok := byTs[smp.ts]
-			if !ok || !t.frames[g].key {
-				continue
-			}
-			if originSet && int32(smp.ts-originTs) < 0 {
-				continue
-			}
-			own, ok := firstFeed[t.frames[g].p0]
-			if !ok {
-				continue // its first packet never arrived: the recorder cannot know it is a keyframe
-			}
-			st := false
-			for h := range t.frames {
-				if h == g || !t.frames[h].key {
-					continue
-				}
-				if fp, ok := firstFeed[t.frames[h].p0]; ok && fp > own && fp <= smp.pos {
-					st = true
-				}
-			}
-			if st {
-				ri.stale[g] = true
-			} else if ri.goodKfAt < 0 {
-				ri.goodKfAt = smp.pos
-			}
-		}
-	}
-	return ri
-}
-
-func (ri *refRun) staleAt(i int) bool {
-	for g := i; g >= 0; g-- {
-		if ri.t.frames[g].key && ri.released[g] {
-			return ri.stale[g]
-		}
-	}
-	return false
-}
-
-// allPushed: every packet of the frame reached the recorder (by Write or GetPacket).
-func (t *track) allPushed(f *frame) bool {
-	for k := f.p0; k < f.p0+f.pn; k++ {
-		if t.firstPush[k] < 0 {
-			return false
-		}
-	}
-	return true
-}
-
-// midstreamSync: both tracks got sender reports and the later of the two first
-// reports came after the recorder had already received video.
-func (s *session) midstreamSync() bool {
-	if s.audio == nil || s.video == nil || len(s.audio.srEvents) == 0 || len(s.video.srEvents) == 0 {
-		return false
-	}
-	sync := max(s.audio.srEvents[0], s.video.srEvents[0])
-	for _, fp := range s.video.firstPush {
-		if fp >= 0 && fp < sync {
-			return true
-		}
-	}
-	return false
-}
-
 func (s *session) replay() map[string]any {
 	return map[string]any{"session": s.p.Session, "thorough": s.p.Thorough, "params": s.p, "delivery": s.summary}
 }
@@ -1601,12 +1491,21 @@ func (s *session) summarise() {
 	s.summary = sum
 }
 
-func (s *session) check() {
+// judge evaluates the clauses of the property over what the recorder left
+// behind and returns the symptoms found; it decides no keys (see attribute).
+// Counters are only touched for the primary run of a session.
+func (s *session) judge(primary bool) *verdict {
 	run := s.run
 	p := s.p
+	v := &verdict{s: s, per: map[int][]sample{}, matches: map[int][]match{}, required: map[int][]bool{}, containerOK: true}
+	count := func(k string, n int64) {
+		if primary {
+			run.Count(k, n)
+		}
+	}
 	s.summarise()
 	if s.endErr != nil {
-		s.violation("not-flushed:end-call-failed", fmt.Sprintf("the closing call returned %v", s.endErr))
+		v.add("end-call-failed", -1, -1, fmt.Sprintf("the closing call returned %v", s.endErr), "")
 	}
 
 	// ---- what must be in the recording, from the delivery history alone
@@ -1659,49 +1558,31 @@ func (s *session) check() {
 
 	// ---- the files
 	if len(s.openFds) > 0 {
-		key := "not-flushed:file-left-open"
-		what := fmt.Sprintf("after the %s call returned the recorder still holds %v open", p.End, s.openFds)
-		if s.video != nil && s.audio != nil {
-			// when did the first keyframe the recorder can recognise come out of
-			// the sample builder?  (observed feed, pinned builder run alone)
-			ri := s.video.refInfo(nil)
-			if ri.goodKfAt == len(s.video.feed) {
-				key += ":first-keyframe-released-by-closing-flush"
-				what += "; no video keyframe had been released by the sample builder before the closing call (its forced flush released the first one), so the file was created during the close, after the audio writer had already been closed"
-			} else if s.midstreamSync() {
-				key += ":sender-report-midstream"
-				what += "; both tracks were synchronised by sender reports after recording began"
-			}
-		}
-		if key == "not-flushed:file-left-open" {
-			if len(s.files) > 1 {
-				key += ":recording-split-in-several-files"
-				what += fmt.Sprintf("; the recorder split this one connection (constant resolution, less than a minute of media) into %d files", len(s.files))
-			} else {
-				key += ":" + p.Class
-			}
-		}
-		s.violation(key, what)
+		v.add("file-left-open", -1, -1, fmt.Sprintf("after the %s call returned the recorder still holds %v open", p.End, s.openFds), "")
 	}
-	per := map[int][]sample{}
+	if len(s.files) > 1 {
+		v.add("recording-split", -1, -1, fmt.Sprintf("the recorder split this one connection (constant resolution, less than two minutes of media, no 2^31 timestamp distance) into %d files", len(s.files)), "")
+	}
+	per := v.per
 	type fblock struct {
 		trk, frame int
 		tc         int64
 	}
 	fileBlocks := make([][]fblock, len(s.files))
 	containerOK := true
+	defer func() { v.containerOK = containerOK }()
 	nblocks := 0
 	for fi, path := range s.files {
 		data, err := os.ReadFile(path)
 		if err != nil {
 			run.Inconclusive(fmt.Sprintf("cannot read %s: %v", path, err))
-			return
+			return v
 		}
 		f, perr := vebml.Parse(data)
 		base := filepath.Base(path)
 		if perr != nil {
 			containerOK = false
-			s.violation("malformed-container", fmt.Sprintf("%s (%d bytes) does not parse: %v (got %d clusters, %d blocks)", base, len(data), perr, len(f.Clusters), len(f.Blocks)))
+			v.add("malformed-container", -1, -1, fmt.Sprintf("%s (%d bytes) does not parse: %v (got %d clusters, %d blocks)", base, len(data), perr, len(f.Clusters), len(f.Blocks)), "")
 		}
 		wantDoc := "webm"
 		wantExt := ".webm"
@@ -1711,15 +1592,15 @@ func (s *session) check() {
 		if perr == nil || f.DocType != "" {
 			if f.DocType != wantDoc {
 				containerOK = false
-				s.violation("malformed-container:doctype", fmt.Sprintf("%s has DocType %q, want %q", base, f.DocType, wantDoc))
+				v.add("malformed-container", -1, -1, fmt.Sprintf("%s has DocType %q, want %q", base, f.DocType, wantDoc), "")
 			}
 		}
 		if filepath.Ext(path) != wantExt {
-			s.violation("malformed-container:extension", fmt.Sprintf("%s: want extension %s", base, wantExt))
+			v.add("malformed-container", -1, -1, fmt.Sprintf("%s: want extension %s", base, wantExt), "")
 		}
 		if perr == nil && (!f.HasInfo || !f.HasTracks) {
 			containerOK = false
-			s.violation("malformed-container:no-tracks", fmt.Sprintf("%s has Info=%v Tracks=%v", base, f.HasInfo, f.HasTracks))
+			v.add("malformed-container", -1, -1, fmt.Sprintf("%s has Info=%v Tracks=%v", base, f.HasInfo, f.HasTracks), "")
 		}
 		// declared tracks = the tracks of the connection
 		num2trk := map[uint64]int{}
@@ -1751,7 +1632,7 @@ func (s *session) check() {
 			}
 			if !okTracks {
 				containerOK = false
-				s.violation("malformed-container:declared-tracks", fmt.Sprintf("%s declares %v for a connection with %s", base, decl, p.shape()))
+				v.add("malformed-container", -1, -1, fmt.Sprintf("%s declares %v for a connection with %s", base, decl, p.shape()), "")
 			}
 		}
 		scale := float64(f.TimecodeScale) / 1e6
@@ -1759,7 +1640,7 @@ func (s *session) check() {
 			ti, ok := num2trk[b.Track]
 			if !ok {
 				containerOK = false
-				s.violation("malformed-container:undeclared-track", fmt.Sprintf("%s: block %d belongs to track %d which is not declared", base, bi, b.Track))
+				v.add("malformed-container", -1, -1, fmt.Sprintf("%s: block %d belongs to track %d which is not declared", base, bi, b.Track), "")
 				break
 			}
 			tc := int64(math.Round(float64(b.Timecode) * scale))
@@ -1768,15 +1649,15 @@ func (s *session) check() {
 		}
 		// the file must not change any more
 		if st, err := os.Stat(path); err == nil && st.Size() != int64(len(data)) {
-			s.violation("not-flushed:file-still-growing", fmt.Sprintf("%s grew from %d to %d bytes after the closing call returned", base, len(data), st.Size()))
+			v.add("file-still-growing", -1, -1, fmt.Sprintf("%s grew from %d to %d bytes after the closing call returned", base, len(data), st.Size()), "")
 		}
 	}
-	run.Count("files_parsed", int64(len(s.files)))
+	count("files_parsed", int64(len(s.files)))
 	if len(s.files) > 1 {
-		run.Count("sessions_with_several_files", 1)
+		count("sessions_with_several_files", 1)
 	}
 
-	if debug {
+	if debug && primary {
 		s.dump(per)
 	}
 
@@ -1821,11 +1702,11 @@ func (s *session) check() {
 				}
 			}
 		}
-		run.Count("blocks_verified_exact", int64(exact))
+		count("blocks_verified_exact", int64(exact))
 		if t.id == 0 {
-			run.Count("audio_blocks_verified_exact", int64(exact))
+			count("audio_blocks_verified_exact", int64(exact))
 		} else {
-			run.Count("video_blocks_verified_exact", int64(exact))
+			count("video_blocks_verified_exact", int64(exact))
 		}
 		nreq := 0
 		for _, b := range e.required {
@@ -1833,79 +1714,13 @@ func (s *session) check() {
 				nreq++
 			}
 		}
-		run.Count("frames_required_present", int64(nreq))
-		if len(issues) == 0 {
-			continue
-		}
-		anyIssue = true
-		// attribution: does the sample builder alone, on the same input, do the same?
-		ri := t.refInfo(e.required)
-		refSig, staleAt := ri.sig, ri.staleAt
+		count("frames_required_present", int64(nreq))
+		v.matches[t.id] = matches
+		v.required[t.id] = e.required
+		v.firstWritten[t.id] = e.anchor
 		for _, is := range issues {
-			if (is.clause == "frame-missing" || is.clause == "not-flushed") && is.frame >= 0 && !ri.writable[is.frame] && t.allPushed(&t.frames[is.frame]) {
-				// knock-on: a recorder cannot write what the sample builder never
-				// released, nor video before the first keyframe the builder released
-				refSig[is.sig] = true
-			}
-		}
-		reported := map[string]bool{}
-		for _, is := range issues {
-			if len(s.openFds) > 0 && (is.clause == "frame-missing" || is.clause == "not-flushed") {
-				// one failure, one key: the file was never finalised, what is
-				// missing sits in the muxer (reported above as file-left-open)
-				continue
-			}
-			key := is.clause
-			if is.clause == "timecode-decreases" && is.frame >= 0 && (refSig[fmt.Sprintf("o:%d", is.frame)] || refSig[fmt.Sprintf("d:%d", is.frame)]) {
-				// the sample builder released this frame late or twice
-				is.sig = fmt.Sprintf("o:%d", is.frame)
-				refSig[is.sig] = true
-			}
-			notFetched := (is.clause == "frame-missing" || is.clause == "not-flushed") && is.frame >= 0 && !t.allPushed(&t.frames[is.frame])
-			if refSig[is.sig] && !notFetched && t.selfFetch == 0 {
-				key = "samplebuilder:" + p.Class
-				if p.H264Multi && t.codec == "h264" {
-					key = "samplebuilder:h264-keyframe-split-per-nal"
-				}
-				is.what = is.clause + ": " + is.what + " - the pinned sample builder alone, fed the packets the recorder received, does the same"
-			} else {
-				if t.selfFetch > 0 {
-					is.what += fmt.Sprintf(" (the recorder asked GetPacket %d times for the very packet it was being handed by Write)", t.selfFetch)
-				}
-				switch is.clause {
-				case "timecode-decreases", "frame-missing", "not-flushed":
-					if is.clause != "timecode-decreases" && is.frame >= 0 && !t.allPushed(&t.frames[is.frame]) {
-						f := &t.frames[is.frame]
-						k := f.p0
-						for k < f.p0+f.pn-1 && t.firstPush[k] >= 0 {
-							k++
-						}
-						key = "frame-missing:" + t.kind.String() + ":packet-not-fetched-from-cache"
-						is.what += fmt.Sprintf(" (packet %d of the frame, seqno %d, was withheld from Write, sits in the cache, and the recorder never asked GetPacket for it although it saw later packets)", k-f.p0, t.pkts[k].seq)
-					} else if is.clause != "timecode-decreases" && t.id == 1 && is.frame >= 0 && staleAt(is.frame) {
-						key += ":video:stale-keyframe"
-						is.what += " (its keyframe was released by the sample builder only after the first packet of a newer keyframe had arrived)"
-					} else if moved := originMoved(t, matches); moved > 2 && len(t.srEvents) > 0 {
-						// the track's mapping from RTP time to file time changed
-						// while recording and the track got sender reports
-						key += ":" + t.kind.String() + ":origin-moved-by-sender-report"
-						is.what += fmt.Sprintf(" (the track's time origin moved by %.0f ms during the recording; sender reports at events %v)", moved, t.srEvents)
-					} else if s.midstreamSync() {
-						// nothing in the file shows it, but both tracks were
-						// synchronised by sender reports after recording began
-						key += ":" + t.kind.String() + ":sender-report-midstream"
-					} else {
-						key += ":" + t.kind.String() + ":" + p.Class
-					}
-				case "frame-duplicated", "frame-out-of-order", "frame-corrupt", "frame-truncated", "frame-padded":
-					key += ":" + t.kind.String() + ":" + p.Class
-				}
-			}
-			if reported[key] {
-				continue
-			}
-			reported[key] = true
-			s.violation(key, fmt.Sprintf("%s track: %s", t.codec, is.what))
+			anyIssue = true
+			v.add(is.clause, t.id, is.frame, t.codec+" track: "+is.what, is.sig)
 		}
 	}
 
@@ -1951,70 +1766,75 @@ func (s *session) check() {
 			if n[0] == 0 || n[1] == 0 {
 				continue
 			}
-			run.Count("av_origin_files_compared", 1)
+			count("av_origin_files_compared", 1)
 			d := math.Max(hi[0]-lo[1], hi[1]-lo[0])
 			if d >= loose {
-				a, v := whi[0], wlo[1]
+				a, vb := whi[0], wlo[1]
 				if hi[1]-lo[0] > hi[0]-lo[1] {
-					a, v = wlo[0], whi[1]
+					a, vb = wlo[0], whi[1]
 				}
-				s.violation("av-origin", fmt.Sprintf("file %d: audio frame %d (captured at %.1f ms) has timecode %d ms and video frame %d (captured at %.1f ms) has timecode %d ms: the two tracks disagree about the origin by %.1f ms (allowed %.1f ms: max(frame interval, 40) + the arrival skew the harness itself introduced + %.1f ms of wall time)",
-					fi, a.frame, s.audio.frames[a.frame].capMs, a.tc, v.frame, s.video.frames[v.frame].capMs, v.tc, d, loose, s.wallMs))
+				v.add("av-origin", -1, -1, fmt.Sprintf("file %d: audio frame %d (captured at %.1f ms) has timecode %d ms and video frame %d (captured at %.1f ms) has timecode %d ms: the two tracks disagree about the origin by %.1f ms (allowed %.1f ms: max(frame interval, 40) + the arrival skew the harness itself introduced + %.1f ms of wall time)",
+					fi, a.frame, s.audio.frames[a.frame].capMs, a.tc, vb.frame, s.video.frames[vb.frame].capMs, vb.tc, d, loose, s.wallMs), "")
 			}
 			if nS[0] > 0 && nS[1] > 0 {
-				run.Count("av_origin_files_compared_after_sender_reports", 1)
+				count("av_origin_files_compared_after_sender_reports", 1)
 				d := math.Max(hiS[0]-loS[1], hiS[1]-loS[0])
 				if d >= base {
-					s.violation("av-origin:after-sender-reports", fmt.Sprintf("file %d: after both tracks got a sender report, frames captured at the same instant get timecodes %.1f ms apart (allowed %.1f ms); audio offsets %.1f..%.1f ms, video offsets %.1f..%.1f ms", fi, d, base, loS[0], hiS[0], loS[1], hiS[1]))
+					v.add("av-origin-after-sender-reports", -1, -1, fmt.Sprintf("file %d: after both tracks got a sender report, frames captured at the same instant get timecodes %.1f ms apart (allowed %.1f ms); audio offsets %.1f..%.1f ms, video offsets %.1f..%.1f ms", fi, d, base, loS[0], hiS[0], loS[1], hiS[1]), "")
 				}
 			}
 		}
 	}
 
+	v.nblocks = nblocks
+	if !primary {
+		return v
+	}
+
 	// ---- accounting
-	run.Count("sessions", 1)
-	run.Count("sessions_end_"+p.End, 1)
-	run.Count("class_"+p.Class, 1)
+	count("sessions", 1)
+	count("sessions_end_"+p.End, 1)
+	count("class_"+p.Class, 1)
 	for _, t := range s.tracks {
-		run.Count("frames_sent", int64(len(t.frames)))
-		run.Count("packets_sent", int64(len(t.pkts)))
-		run.Count("getpacket_calls", int64(t.getCalls))
+		count("frames_sent", int64(len(t.frames)))
+		count("packets_sent", int64(len(t.pkts)))
+		count("getpacket_calls", int64(t.getCalls))
 		rec := 0
 		for _, b := range t.recovered {
 			if b {
 				rec++
 			}
 		}
-		run.Count("packets_recovered_from_cache", int64(rec))
+		count("packets_recovered_from_cache", int64(rec))
 		if rec > 0 {
-			run.Count("tracks_with_cache_recovery", 1)
+			count("tracks_with_cache_recovery", 1)
 		}
 		m := s.summary[t.codec].(map[string]any)
 		if m["late_arrivals"].(int) > 0 {
-			run.Count("tracks_with_reordering", 1)
+			count("tracks_with_reordering", 1)
 		}
 		if m["duplicates"].(int) > 0 {
-			run.Count("tracks_with_duplicates", 1)
+			count("tracks_with_duplicates", 1)
 		}
 		if m["withheld_lost"].(int) > 0 {
-			run.Count("tracks_with_unrecoverable_gaps", 1)
+			count("tracks_with_unrecoverable_gaps", 1)
 		}
 		first, lastSeq := t.pkts[0].seq, t.pkts[len(t.pkts)-1].seq
 		if lastSeq < first {
-			run.Count("tracks_with_seqno_wrap", 1)
+			count("tracks_with_seqno_wrap", 1)
 		}
 		if t.frames[len(t.frames)-1].ts < t.frames[0].ts {
-			run.Count("tracks_with_timestamp_wrap", 1)
+			count("tracks_with_timestamp_wrap", 1)
 		}
 		when := p.SRA
 		if t.id == 1 {
 			when = p.SRV
 		}
-		run.Count("tracks_sr_"+when, 1)
-		run.Count("codec_"+t.codec, 1)
+		count("tracks_sr_"+when, 1)
+		count("codec_"+t.codec, 1)
 	}
 	if nblocks > 0 && containerOK {
-		run.Count("sessions_with_wellformed_file", 1)
+		count("sessions_with_wellformed_file", 1)
 	}
 	nontrivial := nblocks > 0
 	if nontrivial {
@@ -2037,6 +1857,7 @@ func (s *session) check() {
 		}
 		run.Sample(map[string]any{"params": p, "delivery": s.summary, "first_events": strings.Join(head, " "), "files": len(s.files), "blocks": nblocks, "clean": !anyIssue})
 	}
+	return v
 }
 
 var debug = os.Getenv("C20_DEBUG") != ""
@@ -2066,9 +1887,10 @@ func (s *session) dump(per map[int][]sample) {
 		fmt.Printf("\n")
 		if os.Getenv("C20_DEBUG_REF") != "" {
 			fmt.Printf("  ref samples:")
-			ri := t.refInfo(nil)
-			for i, x := range ri.matches {
-				fmt.Printf(" %d(%dB)p%d", x.frame, len(ri.samples[i].data), ri.samples[i].pos)
+			pin := t.pinned()
+			_, pm := t.checkSamples(pin, nil, false)
+			for i, x := range pm {
+				fmt.Printf(" %d(%dB)p%d", x.frame, len(pin[i].data), pin[i].pos)
 			}
 			fmt.Printf("\n")
 		}
@@ -2086,10 +1908,9 @@ func (s *session) dump(per map[int][]sample) {
 
 // ---------------------------------------------------------------------------
 
-func runSession(run *vk.Run, idx uint64, thorough bool) {
-	r := run.Rand(1, idx)
-	p := genParams(r, idx, thorough)
-	s := buildSession(run, p)
+// play drives one (variant of a) session with a watchdog; ok is false when the
+// session could not be judged (already reported).
+func play(run *vk.Run, s *session) bool {
 	done := make(chan error, 1)
 	go func() {
 		defer func() {
@@ -2106,18 +1927,40 @@ func runSession(run *vk.Run, idx uint64, thorough bool) {
 		if err != nil {
 			if strings.HasPrefix(err.Error(), "panic:") {
 				s.summarise()
-				s.violation("recorder-panic", err.Error())
+				s.violation("unattributed:recorder-panic:"+s.p.Class, err.Error())
 			} else {
-				run.Inconclusive(fmt.Sprintf("session %d: %v", idx, err))
+				run.Inconclusive(fmt.Sprintf("session %d: %v", s.p.Session, err))
 			}
-			run.Eval(1)
-			return
+			return false
 		}
 	case <-time.After(180 * time.Second):
-		run.Inconclusive(fmt.Sprintf("session %d: watchdog, the recorder did not return within 180 s (%s)", idx, p.shape()))
+		run.Inconclusive(fmt.Sprintf("session %d: watchdog, the recorder did not return within 180 s (%s)", s.p.Session, s.p.shape()))
+		return false
+	}
+	return true
+}
+
+func runSession(run *vk.Run, idx uint64, thorough bool) {
+	r := run.Rand(1, idx)
+	p := genParams(r, idx, thorough)
+	s := buildSession(run, p, false)
+	if !play(run, s) {
+		run.Eval(1)
 		return
 	}
-	s.check()
+	v := s.judge(true)
+	s.attribute(v, func() (*session, *verdict) {
+		// the same session, replayed without its sender reports
+		s2 := buildSession(run, p, true)
+		if !play(run, s2) {
+			return nil, nil
+		}
+		run.Count("sessions_replayed_without_sender_reports", 1)
+		v2 := s2.judge(false)
+		os.RemoveAll(s2.dir)
+		return s2, v2
+	})
+	s.report(v)
 	run.Eval(1)
 	os.RemoveAll(s.dir)
 }
